@@ -149,7 +149,7 @@ func (f *File) isValidAlias(alias string) bool {
 
 // prefixed returns the name as it will appear in the import block: aliases get the PackagePrefix.
 func (f *File) prefixed(name string, alias bool) string {
-	if f.PackagePrefix != "" && alias {
+	if f.PackagePrefix != "" && alias && name != "." {
 		return f.PackagePrefix + "_" + name
 	}
 	return name
@@ -213,7 +213,7 @@ func (f *File) register(path string) string {
 	}
 
 	// Only add a prefix if the name is an alias
-	if f.PackagePrefix != "" && alias {
+	if f.PackagePrefix != "" && alias && unique != "." {
 		unique = f.PackagePrefix + "_" + unique
 	}
 
